@@ -110,6 +110,8 @@ def run(chk):
     from . import shared
     shared.response_reads(chk, prog, "R1.exact_reads")
     shared.header_line_split(chk, prog, "R1.header_split", "humphrey::http::response::Response::from_stream")
+    # "the upstream receives the request unchanged": same-named header fields keep their order in the relayed request
+    shared.header_order(chk, prog, "R1.header_order")
     shared.eof_is_error(chk, prog, "R1.eof_is_error", r"^humphrey::http::response::Response::from_stream$", "upstream response head")
     # ---- R2 bounded wait
     conn = [blk for blk, t in bi.calls_to(r"TcpStream::connect_timeout$")]
